@@ -9,8 +9,13 @@ func tierSquare(sq uint64) bool {
 	if !verifQuick() {
 		return true
 	}
+	// always: the king home squares and one square on each pawn start rank (castling,
+	// double steps and promotions only exist there); rotated by the seed: corners and centre
+	if sq == 3 || sq == 59 || sq == 12 || sq == 51 {
+		return true
+	}
 	s := (sq + 64 - verifSeed()%64) % 64
-	return s == 0 || s == 3 || s == 12 || s == 28 || s == 39 || s == 51 || s == 59 || s == 63
+	return s == 0 || s == 28 || s == 39 || s == 63
 }
 
 var refKingStep = [8]int{1, 9, 8, 7, -1, -9, -8, -7}
